@@ -9,6 +9,9 @@
 (* One action per public call / critical section:                          *)
 (*   Establish            = full ClientHandshake || ServerHandshake        *)
 (*                          (createPostAuthAd/storeSession on the server)  *)
+(*   Import               = MintClaimSession / ImportClaimSession /        *)
+(*                          ImportFileTransferSession / Store of an entry  *)
+(*                          flagged inherited, with a finite expiry        *)
 (*   Resume, Replay       = ServerHandshake -> handleSessionResumption     *)
 (*                          (LookupNonExpired, reply, RenewLease, key)     *)
 (*                          followed by one application message each way   *)
@@ -46,6 +49,7 @@ CONSTANTS
   MaxTime,     \* horizon of the virtual clock
   Duration,    \* lifetime of a fresh session (SessionDuration)
   Lease,       \* lifetime after a renewal (SessionLease)
+  ImportOn,    \* BOOLEAN: sessions may also be minted / imported (flag inherited, expiry, no lease)
   MaxRec,      \* how many legitimate resumed connections are recorded for replay
   Bug          \* names of known wrong designs (empty = intended design)
 
@@ -74,7 +78,7 @@ Alive(e)   == now <= e.exp
 Rm(f, s)   == [x \in (DOMAIN f) \ {s} |-> f[x]]
 Put(f, k, v) == [x \in (DOMAIN f) \cup {k} |-> IF x = k THEN v ELSE f[x]]
 Keep(f, S) == [x \in (DOMAIN f) \cap S |-> f[x]]
-NoEntry    == [keyed |-> FALSE, authed |-> FALSE, exp |-> -1]
+NoEntry    == [keyed |-> FALSE, authed |-> FALSE, exp |-> -1, minted |-> FALSE]
 
 IdVariants == {"exact", "oneoff", "unknown"}
 Proofs     == {"key", "wrongkey", "nokey"}
@@ -99,12 +103,17 @@ Init ==
 (* Server side: handleSessionResumption                                     *)
 
 \* LookupNonExpired: finds live entries only; an expired entry is removed on the way
-SrvLookup(a, id) == id \in DOMAIN srv[a] /\ (Alive(srv[a][id]) \/ "ExpiredResumed" \in Bug)
+SrvLookup(a, id) ==
+  /\ id \in DOMAIN srv[a]
+  /\ \/ Alive(srv[a][id])
+     \/ "ExpiredResumed" \in Bug
+     \/ (srv[a][id].minted /\ "InheritedNeverExpires" \in Bug)
 SrvAfterMiss(a, id) ==
   IF id \in DOMAIN srv[a] /\ ~Alive(srv[a][id]) THEN [srv EXCEPT ![a] = Rm(srv[a], id)] ELSE srv
 \* the decision: only sessions that carry a key are resumed
 SrvResumes(a, id) == SrvLookup(a, id) /\ (srv[a][id].keyed \/ "KeylessResume" \in Bug)
-SrvRenewed(a, id) == [srv EXCEPT ![a][id].exp = now + Lease]
+\* RenewLease: an imported / minted session carries an expiry but no lease, it is not renewed
+SrvRenewed(a, id) == IF srv[a][id].minted THEN srv ELSE [srv EXCEPT ![a][id].exp = now + Lease]
 
 Reply(want, found, existedAlive) ==
   IF ~want THEN "none"
@@ -137,6 +146,7 @@ Resume(a, tgt, idv, proof, want, from, honour) ==
                  perm |-> (from = "other" /\ would),
                  preExisted |-> existed, preAlive |-> existed /\ Alive(e),
                  preKeyed |-> existed /\ e.keyed, preAuthed |-> existed /\ e.authed,
+                 preMinted |-> existed /\ e.minted,
                  wasDead |-> tgt \in dead,
                  res |-> IF found THEN "resumed" ELSE "refused",
                  reply |-> Reply(want, found, existed /\ Alive(e)),
@@ -175,6 +185,7 @@ Replay(a, i, dir, cut) ==
                  reply |-> IF dir = "s2c" \/ ~parses THEN "any"
                            ELSE Reply(r.want, found, existed /\ Alive(e)),
                  preAlive |-> existed /\ Alive(e), preKeyed |-> existed /\ e.keyed,
+                 preMinted |-> existed /\ e.minted,
                  wasDead |-> id \in dead,
                  keyOn |-> found /\ e.keyed,
                  accepted |-> through, readable |-> FALSE]
@@ -183,9 +194,23 @@ Replay(a, i, dir, cut) ==
 (* Life cycle of server sessions (C06) *)
 Establish(a, keyed, authed) ==
   /\ nextSid <= MaxSid
-  /\ srv' = [srv EXCEPT ![a] = Put(srv[a], nextSid, [keyed |-> keyed, authed |-> authed, exp |-> now + Duration])]
+  /\ srv' = [srv EXCEPT ![a] = Put(srv[a], nextSid, [keyed |-> keyed, authed |-> authed, exp |-> now + Duration, minted |-> FALSE])]
   /\ nextSid' = nextSid + 1
   /\ last' = [act |-> "Establish", sid |-> nextSid, keyed |-> keyed, authed |-> authed]
+  /\ UNCHANGED <<now, cli, mayReuse, brk, dead, gone, recs>>
+
+(* The second way a server-side session comes into existence: it is minted or
+   imported (MintClaimSession with a Lifetime, ImportClaimSession /
+   ImportFileTransferSession with SessionExpires or Duration, a session inherited
+   from the parent daemon, or an entry stored with SetInherited(true)): keyed,
+   authenticated by possession of the secret, flagged inherited, with a finite
+   expiry and NO lease.  Everything the statement says about expiry holds for it. *)
+Import(a) ==
+  /\ ImportOn
+  /\ nextSid <= MaxSid
+  /\ srv' = [srv EXCEPT ![a] = Put(srv[a], nextSid, [keyed |-> TRUE, authed |-> TRUE, exp |-> now + Duration, minted |-> TRUE])]
+  /\ nextSid' = nextSid + 1
+  /\ last' = [act |-> "Import", sid |-> nextSid]
   /\ UNCHANGED <<now, cli, mayReuse, brk, dead, gone, recs>>
 
 AllSrvSids == UNION {DOMAIN srv[a] : a \in Addrs}
@@ -272,7 +297,7 @@ Handshake(t, a, c) ==
          /\ UNCHANGED <<now, srv, cli, mayReuse, nextSid, dead, gone, recs>>
     ELSE /\ nextSid <= MaxSid
          /\ LET n == nextSid IN
-            /\ srv' = [srv EXCEPT ![a] = Put(srv[a], n, [keyed |-> TRUE, authed |-> TRUE, exp |-> now + Duration])]
+            /\ srv' = [srv EXCEPT ![a] = Put(srv[a], n, [keyed |-> TRUE, authed |-> TRUE, exp |-> now + Duration, minted |-> FALSE])]
             /\ cli' = [sess |-> Put(cli.sess, n, [addr |-> a, tag |-> t, exp |-> now + Duration]),
                        map  |-> [k \in (DOMAIN cli.map) \cup {FileKey(t, a, v) : v \in ValidCmds} |->
                                    IF k \in {FileKey(t, a, v) : v \in ValidCmds} THEN n ELSE cli.map[k]]]
@@ -323,6 +348,7 @@ CliSweep ==
 Next06 ==
   \E a \in Addrs :
     \/ \E k, au \in BOOLEAN : Establish(a, k, au)
+    \/ Import(a)
     \/ Tick
     \/ \E s \in Sids : Renew(a, s) \/ SrvInvalidate(a, s)
     \/ SrvSweep(a)
